@@ -430,6 +430,14 @@ def check_device(ctx, tag, **cfg):
     ok = len(d) == 1 and plain(d[0]) and d[0].rhs.canon() == 'self.connect'
     ctx.ob('C57.connect', K + '.connect', ok, d[0].loc if d else devs[0].loc,
            'the device connect input has the single unconditional driver self.connect: %s' % [q.fmt(x) for x in d])
+    # the receive FIFO must hold a whole maximum-size packet: bytes become readable only when the packet is committed at
+    # its end, so a packet that does not fit is refused (NAK) however fast the consumer is -- forever, for that size
+    rkw = ctor_kwargs(ctx, rx_ep)
+    bs, rmps = rkw.get('buffer_size'), num(rkw.get('max_packet_size'))
+    ok = bs is None or (num(bs) is not None and rmps is not None and num(bs) >= rmps)
+    ctx.ob('C57.rx-buffer', K + '.rx-endpoint.buffer_size', ok, rx_ep.loc,
+           'the rx endpoint must buffer at least one maximum-size packet (buffer_size %s, max_packet_size %s; the default is '
+           '2 * max_packet_size - 1)' % (num(bs) if bs is not None else 'default', rmps))
     for role, ep in (('rx', rx_ep), ('tx', tx_ep)):
         n = sum(1 for e in eps if e is ep)
         ctx.ob('C57.registered', K + '.%s-endpoint' % role, n == 1, ep.loc,
